@@ -151,7 +151,7 @@ class Tables(Part):
             "min_width, title/caption, row_styles, end_section x column justify/overflow/ratio/max_width x cells = unique-character multi-line texts with "
             "wide characters, sometimes wrapped in a panel or padding x W = structural minimum + {0..13}, W_safe + {0..13}, or 1..200; "
             "non-trivial = >= 2 columns, >= 1 row, and (natural width > W, or expand with ratios)")
-    budget = {"quick": (16, 200), "thorough": (16, 8000)}
+    budget = {"quick": (16, 400), "thorough": (16, 8000)}
     chunk = 200
 
     def strategy(self, tier):
